@@ -26,6 +26,7 @@ class SpyControl:
         self.fail_from = fail_from  # every call of kind fail_op from this index on fails
         self.fail_op = fail_op
         self.fail_exc = fail_exc
+        self.fail_text = None       # the error text of the injected failure (the operating system's, possibly localised)
         self.failed = []            # indices that were failed
         self.open_files = {}        # id(file) -> path
         self.opened = 0
@@ -68,10 +69,10 @@ class SpyControl:
             self.owners.append(None)
         if self.fail_at is not None and k == self.fail_at:
             self.failed.append((k, op))
-            raise self.fail_exc(5, f"injected failure at backend call {k} ({op})")
+            raise self.fail_exc(5, self.fail_text or f"injected failure at backend call {k} ({op})")
         if self.fail_from is not None and k >= self.fail_from and op == self.fail_op:
             self.failed.append((k, op))
-            raise self.fail_exc(5, f"injected failure at backend call {k} ({op})")
+            raise self.fail_exc(5, self.fail_text or f"injected failure at backend call {k} ({op})")
 
 
 async def _after(ctl, op, inst=None):
